@@ -27,7 +27,10 @@ RULE = ("cases = interception plans (0-8 entries per family built by truncating 
         "exclude with equal keys; 0-3 name servers per family; user/group/none; UDP on/off; IPv4, IPv6 or both) x "
         "7 method variants (nat, nft, tproxy, tproxy+udp, pf FreeBSD/OpenBSD/Darwin), each driven through the real "
         "setup_firewall; plus single setup_firewall calls with unsupported family / udp / empty subnets / mixed "
-        "name-server families. Per plan every cell of the address x port arrangement is decided by the oracle. "
+        "name-server families. A third of the random plans, every corpus plan and a stream of nested chains (3-5 "
+        "nested entries of alternating action with one common port spec, both families, shuffled) are fed through "
+        "the REAL firewall.main() over its ROUTES/NSLIST/PORTS/GO line protocol (fake stdin/stdout, fakes only at "
+        "the subprocess/ioctl boundary) and the rules installed when it says STARTED are judged. Per plan every cell of the address x port arrangement is decided by the oracle. "
         "A case is non-trivial when the plan has overlapping entries, a port range, an owner restriction or a name "
         "server; distinct = distinct (method, canonical plan)")
 MANIFEST = dict(
@@ -59,8 +62,9 @@ ASSUMPTIONS = [
     "tproxy: the documented `ip rule fwmark` / `ip route local default dev lo` policy routing is in place; a new "
     "connection has no matching local socket (`-m socket` false)",
     "pf: filter rules last-match, rdr first-match on lo0 (from the manual pages; not validated, no pf in the sandbox)",
-    "firewall.main passes each call only the entries and name servers of that family, and the client always adds "
-    "an exclude for the listener address of every active family (so pf's `if subnets:` is taken)",
+    "the client always adds an exclude for the listener address of every active family (so pf's `if subnets:` is "
+    "taken); that firewall.main hands each setup_firewall call exactly the entries and name servers of its family "
+    "is no longer assumed: it is checked on the plans driven through the real firewall.main",
 ]
 TRUSTED_EXTRA = ["Env/PacketWalk.lean: netfilter and pf evaluation order (modelled; netfilter semantics spot-validated "
                  "in a network namespace in the thorough tier when available)"]
@@ -167,14 +171,15 @@ class _FakePopen(object):
         return 0
 
 
-def run_real_setup(method, c):
-    """Call the real setup_firewall once.  Returns ('ok', [argv...]) | ('exc', tag) | ('internalError', tag)."""
+def _at_os_boundary(method, body):
+    """Run body(method_object, rec) with subprocess.call/check_output/Popen (and, for pf, the ioctl and
+    pf_get_dev) replaced by recorders; everything is restored afterwards.  Returns body's value."""
     import subprocess
     import sshuttle.helpers as helpers
     from sshuttle.methods import get_method
     helpers.verbose = 0
     rec = []
-    old = (subprocess.call, subprocess.check_output, subprocess.Popen, sys.stderr)
+    old = (subprocess.call, subprocess.check_output, subprocess.Popen, sys.stderr, helpers.logprefix)
     subprocess.call = lambda argv, **kw: (rec.append(('call', list(argv), None)), 0)[1]
     subprocess.check_output = lambda argv, **kw: (rec.append(('query', list(argv), None)), b'')[1]
     subprocess.Popen = lambda argv, **kw: _FakePopen(rec, argv, **kw)
@@ -194,26 +199,16 @@ def run_real_setup(method, c):
             m = get_method('tproxy')
         else:
             m = get_method(method)
-        try:
-            m.setup_firewall(c['port'], c['dnsport'], list(c['nslist']), c['family'], list(c['subnets']),
-                             c['udp'], c['user'], c['group'], c['tmark'])
-        except UnboundLocalError as e:
-            s = str(e)
-            tag = 'includes unbound' if 'includes' in s else 'table unbound' if 'table' in s else s
-            return 'internalError', tag
-        except helpers.Fatal as e:
-            return 'fatal', str(e)
-        except Exception as e:  # noqa
-            s = str(e)
-            tag = 'udp' if 'UDP not supported' in s else 'family' if 'Address family' in s or 'Unsupported family' in s \
-                else type(e).__name__ + ':' + s
-            return 'exc', tag
+        return body(m, rec)
     finally:
-        subprocess.call, subprocess.check_output, subprocess.Popen, sys.stderr = old
+        subprocess.call, subprocess.check_output, subprocess.Popen, sys.stderr, helpers.logprefix = old
         if pf_saved:
             pfmod.pf, pfmod.ioctl, pfmod.pf_get_dev = pf_saved[:3]
             pfmod._pf_context.clear()
             pfmod._pf_context.update(pf_saved[3])
+
+
+def _rule_cmds(rec):
     cmds = []
     for kind, argv, stdin in rec:
         if kind == 'call' and argv[0] in ('iptables', 'ip6tables', 'nft'):
@@ -223,7 +218,116 @@ def run_real_setup(method, c):
             if lines and lines[-1] == '':
                 lines.pop()
             cmds.append([str(a) for a in argv] + lines)
-    return 'ok', cmds
+    return cmds
+
+
+def _classify_exc(e):
+    import sshuttle.helpers as helpers
+    if isinstance(e, UnboundLocalError):
+        s = str(e)
+        return 'internalError', ('includes unbound' if 'includes' in s else 'table unbound' if 'table' in s else s)
+    if isinstance(e, helpers.Fatal):
+        return 'fatal', str(e)
+    s = str(e)
+    tag = 'udp' if 'UDP not supported' in s else 'family' if 'Address family' in s or 'Unsupported family' in s \
+        else type(e).__name__ + ':' + s
+    return 'exc', tag
+
+
+def run_real_setup(method, c):
+    """Call the real setup_firewall once.  Returns ('ok', [argv...]) | ('exc', tag) | ('internalError', tag)."""
+    def body(m, rec):
+        try:
+            m.setup_firewall(c['port'], c['dnsport'], list(c['nslist']), c['family'], list(c['subnets']),
+                             c['udp'], c['user'], c['group'], c['tmark'])
+        except Exception as e:  # noqa
+            return _classify_exc(e)
+        return 'ok', _rule_cmds(rec)
+    return _at_os_boundary(method, body)
+
+
+class _HelperStdout(object):
+    """stdout of the firewall helper: remembers how many commands had been issued when STARTED was written."""
+
+    def __init__(self, rec):
+        self.rec = rec
+        self.data = b''
+        self.started_at = None
+
+    def write(self, b):
+        self.data += bytes(b)
+        if b == b'STARTED\n' and self.started_at is None:
+            self.started_at = len(self.rec)
+        return len(b)
+
+    def flush(self):
+        pass
+
+
+def helper_input(plan):
+    """What client.FirewallClient.setup/start writes to the helper (client.py:411-441)."""
+    lines = ['ROUTES']
+    for (f, w, x, ip, fp, lp) in plan.subnets:
+        lines.append('%d,%d,%d,%s,%d,%d' % (f, w, 1 if x else 0, ip, fp, lp))
+    lines.append('NSLIST')
+    for (f, ip) in plan.nslist:
+        lines.append('%d,%s' % (f, ip))
+    lines.append('PORTS %d,%d,%d,%d' % (plan.port6, plan.port4, plan.dns6, plan.dns4))
+    lines.append('GO %d %s %s %s %d' % (1 if plan.udp else 0, plan.user or '-', plan.group or '-', plan.tmark, 4242))
+    return ('\n'.join(lines) + '\n').encode('ASCII')
+
+
+def run_real_main(method, plan):
+    """Drive the REAL sshuttle.firewall.main() over its line protocol (fake stdin/stdout, fakes only at the
+    subprocess / ioctl boundary) and return the rule-creating commands it had issued when it said STARTED
+    (the tear-down that follows the end of stdin is not part of the installed rule set)."""
+    import sshuttle.firewall as fw
+
+    def body(m, rec):
+        out = _HelperStdout(rec)
+        stdin = io.BytesIO(helper_input(plan))
+        saved = (fw.setup_daemon, fw.get_method, fw.rewrite_etc_hosts, fw.restore_etc_hosts,
+                 fw.flush_systemd_dns_cache, m.is_supported)
+        fw.setup_daemon = lambda: (stdin, out)
+        fw.get_method = lambda name: m
+        fw.rewrite_etc_hosts = lambda *a, **k: None          # never touch /etc/hosts
+        fw.restore_etc_hosts = lambda *a, **k: None
+        fw.flush_systemd_dns_cache = lambda: None
+        m.is_supported = lambda: True
+        try:
+            try:
+                fw.main('pf' if method.startswith('pf-') else 'tproxy' if method.startswith('tproxy') else method,
+                        False)
+            except Exception as e:  # noqa
+                if out.started_at is None:
+                    return _classify_exc(e)
+        finally:
+            (fw.setup_daemon, fw.get_method, fw.rewrite_etc_hosts, fw.restore_etc_hosts,
+             fw.flush_systemd_dns_cache) = saved[:5]
+            try:
+                del m.is_supported
+            except AttributeError:
+                m.is_supported = saved[5]
+        if out.started_at is None:
+            return 'fatal', 'helper ended without STARTED: %r' % out.data[-80:]
+        return 'ok', _rule_cmds(rec[:out.started_at])
+    return _at_os_boundary(method, body)
+
+
+def real_plan_cmds(method, plan, via):
+    """-> ('ok', cmds, per-call results) | (kind, tag, per-call results)."""
+    if via == 'helper':
+        res = run_real_main(method, plan)
+        return (res[0], res[1], [])
+    cmds = []
+    per_call = []
+    for c in plan.calls():
+        res = run_real_setup(method, c)
+        per_call.append((c, res))
+        if res[0] != 'ok':
+            return (res[0], res[1], per_call)
+        cmds.extend(res[1])
+    return ('ok', cmds, per_call)
 
 
 def canon(res):
@@ -783,6 +887,49 @@ def rand_plan(rng, method, size_hint=None):
     return Plan(subnets, nslist, ports[0], ports[1], ports[2], ports[3], method == 'tproxy-udp', user, group, tmark)
 
 
+def nested_plan(rng, method):
+    """3-5 nested entries with ALTERNATING action and one common port spec per family (a chain
+    A include > B exclude > C include ... or its mirror image), optionally with a sibling and a name server;
+    order shuffled.  Only such plans distinguish "most specific entry" from "some containing entry"."""
+    fams = rng.choice([[AF_INET]] * 3 + [[AF_INET6]] * 2 + [[AF_INET, AF_INET6]] * 2)
+    subnets = []
+    nslist = []
+    for fam in fams:
+        n = bits_of(fam)
+        pool = [0, 8, 12, 16, 20, 24, 28, 32] if fam == AF_INET else [0, 16, 32, 48, 56, 64, 96, 128]
+        depth = rng.choice([3, 3, 3, 4, 5])
+        widths = sorted(rng.sample(pool, depth))
+        base = rng.getrandbits(n)
+        if fam == AF_INET:
+            base = (base & 0x00ffffff) | (rng.choice([10, 172, 192, 100]) << 24)
+        else:
+            base = (base & ((1 << 112) - 1)) | (rng.choice([0x2001, 0xfd00]) << 112)
+        fp, lp = rng.choice(PORT_POOL)
+        x = rng.random() < 0.5
+        for w in widths:
+            size = 1 << (n - w)
+            subnets.append((fam, w, x, addr_text(fam, base - base % size), fp, lp))
+            x = not x
+        if rng.random() < 0.3:                      # a sibling of the innermost net, any action
+            w = widths[-1]
+            if w > 0:
+                size = 1 << (n - w)
+                sib = (base - base % size) ^ size
+                subnets.append((fam, w, rng.random() < 0.5, addr_text(fam, sib), fp, lp))
+        if rng.random() < 0.2:                      # same chain position, different ports: must not interfere
+            w = rng.choice(widths)
+            size = 1 << (n - w)
+            subnets.append((fam, w, rng.random() < 0.5, addr_text(fam, base - base % size), 443, 443))
+        if rng.random() < 0.3:
+            nslist.append((fam, addr_text(fam, base if rng.random() < 0.5 else rng.getrandbits(n))))
+    rng.shuffle(subnets)
+    user = group = None
+    if method == 'nat' and rng.random() < 0.2:
+        user = 'alice'
+    ports = rng.sample(range(1024, 65536), 4)
+    return Plan(subnets, nslist, ports[0], ports[1], ports[2], ports[3], method == 'tproxy-udp', user, group, '0x01')
+
+
 def lattice_plans(method):
     """All plans with <= 2 entries over a small lattice (thorough tier)."""
     nets = [('10.0.0.0', 8), ('10.1.0.0', 16), ('10.1.0.0', 8), ('10.1.2.3', 32), ('0.0.0.0', 0)]
@@ -853,16 +1000,13 @@ def minimise(method, plan, k, want_bad):
     return cur
 
 
-def evaluate_plan(method, plan, k):
+def evaluate_plan(method, plan, k, via='direct'):
     """-> (real verdict or error text, spec verdict) for one packet, real code only."""
-    cmds = []
-    for c in plan.calls():
-        res = run_real_setup(method, c)
-        if res[0] != 'ok':
-            return ('setup failed: %s %s' % res, spec_verdict(method, plan, k))
-        cmds.extend(res[1])
+    kind, val, _pc = real_plan_cmds(method, plan, via)
+    if kind != 'ok':
+        return ('setup failed: %s %s' % (kind, val), spec_verdict(method, plan, k))
     try:
-        loaded = load_real(method, cmds)
+        loaded = load_real(method, val)
         return (verdict_real(method, loaded, plan, k), spec_verdict(method, plan, k))
     except Unparsable as e:
         return ('rule rejected: %s' % e, spec_verdict(method, plan, k))
@@ -885,12 +1029,20 @@ def is_ipv6_ns_mask32_class(method, plan, k, got, want):
     return any((a >> 96) == (dst >> 96) for a in ns6)
 
 
-def classify(method, plan, k, got, want):
+def classify(method, plan, k, got, want, via='direct'):
+    """Class of a disagreement.  The known tproxy class keeps its exact key on both paths; everything seen on
+    the path through firewall.main is keyed `C03:via-helper:...`."""
+    if is_ipv6_ns_mask32_class(method, plan, k, got, want):
+        return KNOWN_MASK32_KEY
+    if via == 'helper':
+        method = 'via-helper:' + method
+    return _classify(method, plan, k, got, want)
+
+
+def _classify(method, plan, k, got, want):
     fam6, dst, dport, proto, loc, dl, uid, gid, sock = k
     if got.startswith('rule rejected') or got.startswith('setup failed'):
         return 'C03:%s:rules-not-loadable' % method
-    if is_ipv6_ns_mask32_class(method, plan, k, got, want):
-        return KNOWN_MASK32_KEY
     dnsport = plan.dns6 if fam6 else plan.dns4
     if got == 'd%d' % dnsport and want != got:
         return 'C03:%s:dns-divert-of-non-nameserver' % method
@@ -903,33 +1055,29 @@ def classify(method, plan, k, got, want):
     return 'C03:%s:not-diverted-but-most-specific-is-include' % method
 
 
-def run_plan(ctx, method, plan, log, budget, lean_cells):
+def run_plan(ctx, method, plan, log, budget, lean_cells, via='direct'):
     rng = ctx.rng
-    cmds = []
-    failed = None
-    for c in plan.calls():
-        res = run_real_setup(method, c)
+    tag = 'via-helper:' + method if via == 'helper' else method
+    kind, val, per_call = real_plan_cmds(method, plan, via)
+    for c, res in per_call:
         log.ins.append(setup_line(method, c))
         log.outs.append(canon(res))
-        if res[0] != 'ok':
-            failed = res
-            break
-        cmds.extend(res[1])
     log.ins.append(plan_line(method, plan))
-    if failed:
-        log.outs.append('%s %s' % failed)
-        ctx.hist('plan-setup-' + failed[0])
+    if kind != 'ok':
+        log.outs.append('%s %s' % (kind, val))
+        ctx.hist('plan-setup-' + kind)
         if wf_plan(plan):
-            ctx.violation('C03:%s:setup-raises' % method,
-                          case=dict(method=method, plan=plan.to_json(), packet=None),
-                          expected='rules installed for a well-formed plan', observed='%s %s' % failed)
+            ctx.violation('C03:%s:setup-raises' % tag,
+                          case=dict(method=method, via=via, plan=plan.to_json(), packet=None),
+                          expected='rules installed for a well-formed plan', observed='%s %s' % (kind, val))
         return
+    cmds = val
     log.outs.append('ok %d' % len(cmds))
     try:
         loaded = load_real(method, cmds)
     except Unparsable as e:
-        ctx.violation('C03:%s:rules-not-loadable' % method,
-                      case=dict(method=method, plan=plan.to_json(), packet=None),
+        ctx.violation('C03:%s:rules-not-loadable' % tag,
+                      case=dict(method=method, via=via, plan=plan.to_json(), packet=None),
                       expected='every emitted rule is accepted by the tool', observed=str(e))
         return
     if not wf_plan(plan):
@@ -943,7 +1091,7 @@ def run_plan(ctx, method, plan, log, budget, lean_cells):
         want = spec_verdict(method, plan, k)
         verdicts[k] = (got, want)
         if got != want:
-            key = classify(method, plan, k, got, want)
+            key = classify(method, plan, k, got, want, via)
             nbad[key] = nbad.get(key, 0) + 1
             if key not in bad or (bad[key][0][4] == 0 and k[4] == 1):
                 bad[key] = (k, got, want)
@@ -959,19 +1107,21 @@ def run_plan(ctx, method, plan, log, budget, lean_cells):
         reported.add(key)
 
         def want_bad(tp, kk, key=key):
-            g, w = evaluate_plan(method, tp, kk)
-            return g != w and classify(method, tp, kk, g, w) == key
+            g, w = evaluate_plan(method, tp, kk, via)
+            return g != w and classify(method, tp, kk, g, w, via) == key
         small = minimise(method, plan, k, want_bad)
-        g2, w2 = evaluate_plan(method, small, k)
+        g2, w2 = evaluate_plan(method, small, k, via)
         ctx.violation(key,
-                      case=dict(method=method, plan=small.to_json(), packet=list(k),
+                      case=dict(method=method, via=via, plan=small.to_json(), packet=list(k),
                                 packet_text='%s %s port %d to %s, %s' % (
                                     'IPv6' if k[0] else 'IPv4', k[3], k[2],
                                     addr_text(AF_INET6 if k[0] else AF_INET, k[1]),
                                     'locally generated' if k[4] else 'forwarded')),
                       expected='%s (property evaluated on the plan)' % w2,
-                      observed='%s (walk over the rules the real setup_firewall emitted); %d of %d cells of the '
-                               'original plan disagree in this class' % (g2, nbad[key], len(ks)))
+                      observed='%s (walk over the rules the real %s emitted); %d of %d cells of the original plan '
+                               'disagree in this class' % (
+                                   g2, 'firewall.main + setup_firewall' if via == 'helper' else 'setup_firewall',
+                                   nbad[key], len(ks)))
     # a sample of cells goes through the Lean walk and the Lean spec as well
     if lean_cells and ks:
         interesting = [k for k in ks if verdicts[k][1] != 'u']
@@ -1008,24 +1158,41 @@ def gen_and_run(ctx):
     # 2. corpus: hand-written boundary plans
     for method in METHODS:
         for plan in corpus(method):
+            for via in ('direct', 'helper'):
+                lg = Case()
+                run_plan(ctx, method, plan, lg, 1500, 40 if via == 'direct' else 12, via)
+                logs.append((method, lg))
+                ctx.hist('plan:' + method)
+                ctx.hist('path:' + via)
+                ctx.mark(canon_plan(method, plan) + (via,), nontrivial(plan))
+    # 2b. nested alternating chains through the real firewall.main (ROUTES/NSLIST/PORTS/GO line protocol)
+    for i in range(ctx.scale(14, 400)):
+        for method in METHODS:
+            plan = nested_plan(rng, method)
             lg = Case()
-            run_plan(ctx, method, plan, lg, 1500, 40)
+            run_plan(ctx, method, plan, lg, 300, 10, 'helper')
             logs.append((method, lg))
-            ctx.hist('plan:' + method)
-            ctx.mark(canon_plan(method, plan), nontrivial(plan))
+            ctx.hist('nested-plan:' + method)
+            ctx.hist('path:helper')
+            ctx.mark(canon_plan(method, plan) + ('helper',), True)
+            if i < 1 and method == 'nft':
+                ctx.sample(dict(method=method, path='firewall.main', helper_stdin=helper_input(plan).decode('ascii'),
+                                real_code_output=lg.outs[:1]))
     # 3. generated plans
     nplans = ctx.scale(150, 2500)
     for i in range(nplans):
         for method in METHODS:
             plan = rand_plan(rng, method)
+            via = 'helper' if i % 3 == 2 else 'direct'
             lg = Case()
-            run_plan(ctx, method, plan, lg, 400 if not ctx.thorough else 900, 24)
+            run_plan(ctx, method, plan, lg, 400 if not ctx.thorough else 900, 24, via)
             logs.append((method, lg))
             ctx.hist('plan:' + method)
+            ctx.hist('path:' + via)
             ctx.hist('entries:%d' % min(len(plan.subnets), 9))
             if plan.user or plan.group:
                 ctx.hist('owner-restricted' if method == 'nat' else 'owner-given-but-ignored-by-method')
-            ctx.mark(canon_plan(method, plan), nontrivial(plan))
+            ctx.mark(canon_plan(method, plan) + (via,), nontrivial(plan))
             if i < 1 and method in ('nat', 'pf-openbsd'):
                 ctx.sample(dict(method=method, plan=plan.to_json(), real_code_output=lg.outs[:2]))
         if len([v for v in ctx.violations if v['key'] != KNOWN_MASK32_KEY]) > 12:
@@ -1059,6 +1226,12 @@ def corpus(method):
     yield P([(v4, 16, False, '10.1.0.0', 80, 90), (v4, 16, True, '10.1.0.0', 85, 95)])
     # 1-65535 is still narrower than "no ports"
     yield P([(v4, 32, True, '10.1.2.3', 0, 0), (v4, 8, False, '10.0.0.0', 1, 65535)])
+    # three and four nested levels with alternating action and equal port spec (include > exclude > include ...)
+    yield P([(v4, 8, False, '10.0.0.0', 0, 0), (v4, 16, True, '10.1.0.0', 0, 0), (v4, 24, False, '10.1.1.0', 0, 0)])
+    yield P([(v4, 24, True, '10.1.1.0', 0, 0), (v4, 0, False, '0.0.0.0', 0, 0), (v4, 16, False, '10.1.0.0', 0, 0),
+             (v4, 8, True, '10.0.0.0', 0, 0)])
+    yield P([(v6, 32, False, '2001:db8::', 443, 443), (v6, 48, True, '2001:db8:1::', 443, 443),
+             (v6, 64, False, '2001:db8:1:2::', 443, 443)])
     # both families, name servers in both, one inside an excluded net
     yield P([(v4, 0, False, '0.0.0.0', 0, 0), (v4, 8, True, '127.0.0.0', 0, 0), (v6, 0, False, '::', 0, 0),
              (v6, 128, True, '::1', 0, 0)], [(v4, '127.0.0.53'), (v6, '2001:db8::53'), (v4, '8.8.8.8')])
@@ -1123,18 +1296,18 @@ def search(ctx):
 def replay(ctx, rep):
     case = rep['case']
     method = case['method']
+    via = case.get('via', 'direct')
     plan = Plan.from_json(case['plan'])
     if case.get('packet') is None:
-        for c in plan.calls():
-            res = run_real_setup(method, c)
-            if res[0] != 'ok':
-                return True, 'real setup_firewall: %s %s' % res
-            try:
-                load_real(method, res[1])
-            except Unparsable as e:
-                return True, 'emitted rule not loadable: %s' % e
+        kind, val, _pc = real_plan_cmds(method, plan, via)
+        if kind != 'ok':
+            return True, 'real code (%s path): %s %s' % (via, kind, val)
+        try:
+            load_real(method, val)
+        except Unparsable as e:
+            return True, 'emitted rule not loadable: %s' % e
         return False, 'rules installed'
     k = tuple(case['packet'])
-    got, want = evaluate_plan(method, plan, k)
-    return got != want, 'packet %s (%s): real rules -> %s, property -> %s' % (
-        pkt_field(k), case.get('packet_text', ''), got, want)
+    got, want = evaluate_plan(method, plan, k, via)
+    return got != want, 'packet %s (%s), %s path: real rules -> %s, property -> %s' % (
+        pkt_field(k), case.get('packet_text', ''), via, got, want)
